@@ -84,19 +84,20 @@ class Scratch:
     def __init__(self):
         self.d = tlc.workdir('c14fs')
 
-    def setup(self, dest, ext):
+    def setup(self, dest, ext, old=None):
+        old = OLD if old is None else old
         for f in os.listdir(self.d):
             p = os.path.join(self.d, f)
             (shutil.rmtree if os.path.isdir(p) and not os.path.islink(p) else os.remove)(p)
         a = os.path.join(self.d, 'dest' + ext)
         b = os.path.join(self.d, 'target' + ext)
         if dest == 'file':
-            open(a, 'wb').write(OLD)
+            open(a, 'wb').write(old)
         elif dest == 'emptyfile':
             open(a, 'wb').close()
         elif dest in ('link', 'dangling'):
             if dest == 'link':
-                open(b, 'wb').write(OLD)
+                open(b, 'wb').write(old)
             os.symlink(b, a)
         return a, b
 
@@ -169,7 +170,9 @@ def run_case(ctx, sc, req, allowed, variant, rnd):
         really_fails = True
     if (ser == 'fail') != really_fails:
         return None, inject            # this candidate does not fail (e.g. it is skipped with a warning): not a 'fail' request
-    a, b = sc.setup(dest, ext)
+    # the old content is shorter than any new text for even variants, much longer for odd ones (an overwrite must not leave a tail)
+    old = b'' if dest == 'emptyfile' else (OLD if variant % 2 == 0 else OLD * 400)
+    a, b = sc.setup(dest, ext, old)
     if not really_fails:
         text, parsed = expected_new(obj, fmt, opts)
     else:
@@ -187,7 +190,6 @@ def run_case(ctx, sc, req, allowed, variant, rnd):
         except Exception:  # noqa
             return False
     result = do_write(obj, a, fmt, ow, opts)
-    old = b'' if dest == 'emptyfile' else OLD
     fs = {'a': classify(a, old, is_new), 'b': classify(b, old, is_new)}
     case = {'request': req, 'injected': inject, 'via': how, 'ext': ext, 'observed': {'result': result, 'fs': fs}, 'allowed': allowed}
     ctx.case((fmt, ow, ser, dest, inject, how, ext), True)
